@@ -36,6 +36,7 @@ def main():
     for q, (f, _, _) in inline.function_table(mod.tree).items():
       if q in inv.get(mname, {}):
         inv[mname][q]['flat'] = inline.flat_form(f)
+        inv[mname][q]['loops'] = inline.loop_targets(f)
   json.dump(inv, open(out, 'w'), indent=0, sort_keys=True)
   inline._INV = None
   print('functions: %d' % sum(len(v) for k, v in inv.items()
